@@ -330,6 +330,10 @@ var docLines = map[string]string{
 	"inl*":   "para a *x* b\n",
 	"inlu@":  "para a\xe2@ b\n",   // a truncated multi-byte sequence right in front of the trigger byte
 	"inlu*":  "para a\xc3*x* b\n", // (the trigger is still a byte of its own and must be dispatched)
+	"inlb@":  "para \\a@ b\n",     // a literal backslash (before a letter), plain bytes, then the trigger: the escape ended with its byte
+	"inlb*":  "para \\a*x* b\n",
+	"inle@":  "para \\\\@ b\n", // an escaped backslash directly in front of the trigger
+	"inle*":  "para \\\\*x* b\n",
 	"plain":  "plain\n",
 	"defhr":  "[foo]: /url\n---\n",
 	"pint%":  "plain\n% probe line\n", // a crafted line directly after an open paragraph, first byte nobody is triggered by
@@ -530,11 +534,14 @@ func priorityOracle(c *kit.Case) error {
 			} else {
 				wantOut.WriteString("<hr>\n")
 			}
-		case "para", "plain", "inl@", "inl*", "inlu@", "inlu*":
+		case "para", "plain", "inl@", "inl*", "inlu@", "inlu*", "inlb@", "inlb*", "inle@", "inle*":
 			line := strings.TrimSuffix(docLines[k], "\n")
 			pre := "para a "
-			if strings.HasPrefix(k, "inlu") {
-				pre = map[string]string{"inlu@": "para a\xe2", "inlu*": "para a\xc3"}[k]
+			if len(k) == 5 && strings.HasPrefix(k, "inl") {
+				pre = map[string]string{"inlu@": "para a\xe2", "inlu*": "para a\xc3", "inlb@": "para \\a", "inlb*": "para \\a", "inle@": "para \\", "inle*": "para \\"}[k]
+				if k[3] == 'e' {
+					line = strings.Replace(line, "\\\\", "\\", 1) // the escaped backslash is rendered as one
+				}
 				k = "inl" + k[4:]
 			}
 			detached := false
@@ -755,7 +762,7 @@ func TestPriority(t *testing.T) {
 		nk := rapid.IntRange(2, 6).Draw(t, "nlines")
 		var keys []string
 		for i := 0; i < nk; i++ {
-			keys = append(keys, rapid.SampledFrom([]string{"at", "hvalid", "hbad", "para", "inl@", "inl*", "plain", "defhr", "pint%", "pint@", "inlu@", "inlu*"}).Draw(t, "line"))
+			keys = append(keys, rapid.SampledFrom([]string{"at", "hvalid", "hbad", "para", "inl@", "inl*", "plain", "defhr", "pint%", "pint@", "inlu@", "inlu*", "inlb@", "inlb*", "inle@", "inle*"}).Draw(t, "line"))
 		}
 		c := kit.NewCase("priority", "").S("spec", strings.Join(parts, " ")).S("doc", strings.Join(keys, " "))
 		if rapid.IntRange(0, 4).Draw(t, "shared") == 0 {
